@@ -706,8 +706,9 @@ ArrMenu ==
       [k |-> "opasg", x |-> "vi", op |-> "add", e |-> Lit(100)],
       [k |-> "printg"] }
 LoopFamily ==
-    { WProg("", <<>>, << [k |-> "mkfs"], MkLoop(kd, <<b[1], b[2]>>), [k |-> "callall"], [k |-> "printg"] >>) :
-        kd \in FamLoopKinds, b \in [1..2 -> LoopMenu] }
+    { WProg("", <<>>, << [k |-> "mkfs"], MkLoop(q[1], <<q[2][1], q[2][2]>>), [k |-> "callall"], [k |-> "printg"] >>) :
+        q \in {z \in FamLoopKinds \X [1..2 -> LoopMenu] :
+                  z[1] = "gloop" => (z[2][1].k # "cont" /\ z[2][2].k # "cont")} }   \* continue needs a loop statement
     \cup
     { WProg("", <<>>, << [k |-> "mkfs"], MkLoop("rngarr", <<b[1], b[2], b[3]>>), [k |-> "callall"], [k |-> "printg"] >>) :
         b \in [1..3 -> ArrMenu] }
